@@ -30,8 +30,9 @@ SupportedTerms == CollectTerms \cup FindTerms \cup {"collect_x", "count", "for_e
 \* programs whose runs this pass tracks
 Applicable(ev) ==
   /\ ev.mode # "free"
+  /\ ~IsBig(ev.p)
   /\ ev.p.src \in {"vec", "slice", "range", "iter", "iterx", "deque", "list", "btree"}
-  /\ ev.p.cs < 0
+  /\ (ev.p.cs < 0 \/ (ev.p.cs >= 1 /\ ev.p.cs <= Len(Stages(ev.p))) \/ ev.p.cs = TermStage)
   /\ EagerStages(ev.p) = {}
   /\ ev.p.term.k \in SupportedTerms
   /\ (Len(Stages(ev.p)) > 0 \/ TermHasClosure(ev.p))
@@ -129,6 +130,20 @@ TWEnd ==
   /\ wk'[Ev.a].pc = "done"
   /\ Step1 /\ UNCHANGED tf
 
+\* a worker ends while unwinding: the closure call it was about to make panicked
+TWPanic ==
+  /\ IsEv("wend")
+  /\ Ev.p = 1 /\ Ev.a >= 1 /\ Ev.a <= MaxW
+  /\ WPanic(Ev.a)
+  /\ Step1 /\ UNCHANGED tf
+
+TTePanic ==
+  /\ IsEv("te")
+  /\ Ev.kind = "panic"
+  /\ SJoin
+  /\ result'[1] = "panic"
+  /\ Step1 /\ UNCHANGED tf
+
 EvPairs == [i \in 1..Len(Ev.rk) |-> <<Ev.rk[i], Ev.rv[i]>>]
 PrefixOfTerm == IF prog.term.k = "collect_into"
                 THEN [i \in 1..Len(prog.term.pre) |-> <<1000000 + (i - 1), prog.term.pre[i]>>] ELSE <<>>
@@ -155,7 +170,7 @@ TTe ==
   /\ IsEv("te")
   /\ Ev.kind # "panic"
   /\ SJoin \/ SSeq
-  /\ ResultAgrees(result'[1])
+  /\ result'[1] = "ok" /\ ResultAgrees(result'[2])
   /\ Step1 /\ UNCHANGED tf
 
 TEnd ==
@@ -170,7 +185,7 @@ TEnd ==
 Strict ==
   /\ tf.active
   /\ \/ TStutter \/ TRunBegin \/ TPreDecide \/ TPreChunk \/ TWBegin \/ TBeforeJoin
-     \/ TFirstCall \/ TOtherCall \/ TWEnd \/ TTe \/ TEnd
+     \/ TFirstCall \/ TOtherCall \/ TWEnd \/ TWPanic \/ TTe \/ TTePanic \/ TEnd
 
 Reject ==
   /\ tf.active
